@@ -160,6 +160,32 @@ func c20Exec(c Sx) Sx {
 				return L(A("auth"), A("gate-differs-after-an-earlier-write"), B(ran), B(ran2))
 			}
 		}
+		// the same gate behind a middleware that buffers the response (it replaces c.Resp and replays what was recorded after
+		// Next): the client gets the same status
+		{
+			r3 := rux.New()
+			r3.Any("/x", func(c *rux.Context) { c.SetStatus(200) }, func(c *rux.Context) {
+				orig := c.Resp
+				buf := httptest.NewRecorder()
+				c.Resp = buf
+				c.Next()
+				c.Resp = orig
+				for k, v := range buf.Header() {
+					orig.Header()[k] = v
+				}
+				orig.WriteHeader(buf.Code)
+				_, _ = orig.Write(buf.Body.Bytes())
+			}, handlers.HTTPBasicAuth(accounts))
+			req3 := httptest.NewRequest(method, "/x", nil)
+			if hdr != "" {
+				req3.Header.Set("Authorization", hdr)
+			}
+			w3 := httptest.NewRecorder()
+			r3.ServeHTTP(w3, req3)
+			if w3.Code != w.Code {
+				return L(A("auth"), A("status-differs-behind-a-buffering-writer"), I(w.Code), I(w3.Code))
+			}
+		}
 		return L(A("auth"), B(ran), I(w.Code), S(w.Header().Get("WWW-Authenticate")))
 	case "ovr":
 		m, fv, hv, carrier := c.List[1].Str(), c.List[2].Str(), c.List[3].Str(), c.List[4].Sym()
@@ -263,6 +289,20 @@ func c20Exec(c Sx) Sx {
 		}
 		r.GET("/x", func(c *rux.Context) { evs = append(evs, I(990)) }, mws...)
 		r.ServeHTTP(httptest.NewRecorder(), httptest.NewRequest("GET", "/x", nil))
+		// several wrapped net/http handlers registered through Router.Use from one call site (a loop over a list): all run
+		{
+			var got []int
+			rr := rux.New()
+			for j := 0; j < 3; j++ {
+				j := j
+				rr.Use(rux.WrapHTTPHandler(http.HandlerFunc(func(http.ResponseWriter, *http.Request) { got = append(got, j) })))
+			}
+			rr.GET("/u", func(*rux.Context) { got = append(got, 9) })
+			rr.ServeHTTP(httptest.NewRecorder(), httptest.NewRequest("GET", "/u", nil))
+			if fmt.Sprint(got) != "[0 1 2 9]" {
+				return L(A("wraph"), A("wrapped-handlers-added-with-Use-do-not-all-run"), S(fmt.Sprint(got)))
+			}
+		}
 		// a wrapped net/http handler is given the request as the middleware before it left it (context values, method)
 		{
 			type ctxKey struct{}
